@@ -58,4 +58,25 @@ def suffixMoves (digits j : Nat) (keep : Bool) : List Move :=
 def heredocMoves (e t : Nat) (atEnd : Bool) : List Move :=
   .fwd 1 :: .fwd e :: ((if atEnd then [] else [.back 1]) ++ [.back t])
 
+def Move.isFwd : Move → Bool
+  | .fwd _ => true
+  | .back _ => false
+
+inductive ScanOut where
+  | done (current iterations : Nat)   -- the loop test failed: `_end`
+  | undisciplined                      -- an iteration rewound past its own `_advance(offset)`
+  | outOfFuel                          -- still iterating when the fuel ran out
+  deriving DecidableEq, Repr
+
+/-- the `while self.size and not self._end` loop with the iteration given as a function of `_current` (whatever the
+    characters make the sub-scanners do) -/
+def scanRun (size : Nat) (step : Nat → Option Nat) : Nat → Nat → Nat → ScanOut
+  | 0, c, n => if c < size then .outOfFuel else .done c n
+  | fuel + 1, c, n =>
+    if c < size then
+      match step c with
+      | some c' => scanRun size step fuel c' (n + 1)
+      | none => .undisciplined
+    else .done c n
+
 end SqlglotModel.ScanProgress
